@@ -57,7 +57,7 @@ ASSUMPTIONS = [
     "derives from the quantizers are compared against the directly "
     "constructed reference layer instead of the source layer",
 ]
-BUDGET_S = {"quick": 55, "thorough": 840}
+BUDGET_S = {"quick": 50, "thorough": 840}
 REQUIRED_LABELS = {
     "quick": ["lattice", "hyp", "functional", "sequential", "merge",
               "name_over_class", "sel:QDense", "sel:QConv2D", "sel:QConv1D",
@@ -75,7 +75,10 @@ REQUIRED_LABELS["quick"] += ["sel:QGRU", "sel:QBidirectional:QGRU",
                              "lstm_no_unit_forget_bias", "rnn_no_recurrent_q",
                              "bn_selected_by_empty_name_entry",
                              "bn_selected_by_empty_class_entry",
-                             "hidden_by_empty_name_entry"]
+                             "hidden_by_empty_name_entry",
+                             "bidi_explicit_backward",
+                             "bidi_explicit_backward_other_class",
+                             "act:untouched_other", "act:untouched_lookalike"]
 REQUIRED_LABELS["thorough"] = REQUIRED_LABELS["quick"] + [
     "unsel:LSTM", "unsel:Bidirectional", "two_outputs"]
 
@@ -240,6 +243,71 @@ def _attribute(case, model, pl, sig0):
   return culprits[0] if culprits else None
 
 
+def case_labels(case, pl, origin):
+  """Coverage labels of a case (pure python, from the description and the
+  reference plan) and its non-triviality."""
+  desc, qd = case["model"], case["qdict"]
+  prefer = bool(case.get("prefer_adaptive", False))
+  transfer = bool(case.get("transfer", False))
+  labels = [origin, desc["api"], "rank%d" % (len(desc["input_shape"]) + 1),
+            "layers:%d" % len(desc["layers"])]
+  if any(ld["cls"] in ("Add", "Concatenate") for ld in desc["layers"]):
+    labels.append("merge")
+  if len(desc.get("outputs", [])) > 1:
+    labels.append("two_outputs")
+  labels.append("transfer" if transfer else "no_transfer")
+  if prefer:
+    labels.append("prefer_adaptive")
+  n_sel = n_unsel = 0
+  for ld in desc["layers"]:
+    p = pl[ld["name"]]
+    if p["selected"]:
+      n_sel += 1
+      labels.append("sel:" + p["cls"])
+      if p["cls"] == "QBidirectional":
+        labels.append("sel:QBidirectional:" + p["inner"]["cls"])
+        if "inner_bw" in p:
+          labels.append("bidi_explicit_backward")
+          if p["inner_bw"]["cls"] != p["inner"]["cls"]:
+            labels.append("bidi_explicit_backward_other_class")
+      labels.append("by:" + str(p["by"]))
+      if "bias_quantizer" in p["roles"] and not ld["kw"].get("use_bias", True):
+        labels.append("biasless_selected")
+      a = p.get("activation") or (p.get("inner") or {}).get("activation")
+      if a:
+        labels.append("act:" + a[0])
+        if a[0] == "untouched" and a[1] not in (None, "linear", "softmax"):
+          labels.append("act:untouched_other")
+          if str(a[1]).endswith(("relu", "tanh", "sigmoid")) or str(
+              a[1]).startswith(("relu", "tanh", "sigmoid")):
+            labels.append("act:untouched_lookalike")
+      if REF.contested(ld, qd):
+        labels.append("name_over_class")
+      if ld["cls"] == "BatchNormalization":
+        ent = qd[ld["name"]] if ld["name"] in qd else qd.get(
+            "QBatchNormalization")
+        if ent == {}:
+          labels.append("bn_selected_by_empty_%s_entry" % p["by"])
+      if ld["cls"] == "LeakyReLU":
+        labels.append("src:LeakyReLU->QActivation")
+      pr = p.get("inner", p)
+      if "recurrent_quantizer" in pr["roles"] and not pr["roles"][
+          "recurrent_quantizer"]:
+        labels.append("rnn_no_recurrent_q")
+      ikw = ld["kw"]["layer"]["kw"] if ld["cls"] == "Bidirectional" else ld["kw"]
+      if pr["cls"] == "QLSTM" and ikw.get("unit_forget_bias") is False:
+        labels.append("lstm_no_unit_forget_bias")
+    else:
+      n_unsel += 1
+      labels.append("unsel:" + ld["cls"])
+      if ld["name"] in qd and REF.contested(ld, qd):
+        labels.append("hidden_by_name_entry")
+        if qd[ld["name"]] == {}:
+          labels.append("hidden_by_empty_name_entry")
+  return labels, (n_sel > 0 and n_unsel > 0)
+
+
+
 def oracle(ctx, case, origin="hyp"):
   """Returns [(sub_check, signature, detail)] and ticks once."""
   import tensorflow as tf  # pylint: disable=g-import-not-at-top
@@ -265,53 +333,7 @@ def oracle(ctx, case, origin="hyp"):
   model = KM.build(desc)
   lidx = KM.layer_index(desc)
 
-  labels = [origin, desc["api"], "rank%d" % (len(desc["input_shape"]) + 1),
-            "layers:%d" % len(desc["layers"])]
-  if any(ld["cls"] in ("Add", "Concatenate") for ld in desc["layers"]):
-    labels.append("merge")
-  if len(desc.get("outputs", [])) > 1:
-    labels.append("two_outputs")
-  labels.append("transfer" if transfer else "no_transfer")
-  if prefer:
-    labels.append("prefer_adaptive")
-  n_sel = n_unsel = 0
-  for ld in desc["layers"]:
-    p = pl[ld["name"]]
-    if p["selected"]:
-      n_sel += 1
-      labels.append("sel:" + p["cls"])
-      if p["cls"] == "QBidirectional":
-        labels.append("sel:QBidirectional:" + p["inner"]["cls"])
-      labels.append("by:" + str(p["by"]))
-      if "bias_quantizer" in p["roles"] and not ld["kw"].get("use_bias", True):
-        labels.append("biasless_selected")
-      a = p.get("activation") or (p.get("inner") or {}).get("activation")
-      if a:
-        labels.append("act:" + a[0])
-      if REF.contested(ld, qd):
-        labels.append("name_over_class")
-      if ld["cls"] == "BatchNormalization":
-        ent = qd[ld["name"]] if ld["name"] in qd else qd.get(
-            "QBatchNormalization")
-        if ent == {}:
-          labels.append("bn_selected_by_empty_%s_entry" % p["by"])
-      if ld["cls"] == "LeakyReLU":
-        labels.append("src:LeakyReLU->QActivation")
-      pr = p.get("inner", p)
-      if "recurrent_quantizer" in pr["roles"] and not pr["roles"][
-          "recurrent_quantizer"]:
-        labels.append("rnn_no_recurrent_q")
-      ikw = ld["kw"]["layer"]["kw"] if ld["cls"] == "Bidirectional" else ld["kw"]
-      if pr["cls"] == "QLSTM" and ikw.get("unit_forget_bias") is False:
-        labels.append("lstm_no_unit_forget_bias")
-    else:
-      n_unsel += 1
-      labels.append("unsel:" + ld["cls"])
-      if ld["name"] in qd and REF.contested(ld, qd):
-        labels.append("hidden_by_name_entry")
-        if qd[ld["name"]] == {}:
-          labels.append("hidden_by_empty_name_entry")
-  nontrivial = n_sel > 0 and n_unsel > 0
+  labels, nontrivial = case_labels(case, pl, origin)
 
   # ---- snapshots for the non-mutation clauses
   src_cfg_before = digest(model.get_config())
@@ -427,12 +449,13 @@ def oracle(ctx, case, origin="hyp"):
         _check_weights(fail, sl, ql, src_weights, transfer, base)
         continue
       # selected: compare with the directly constructed reference layer
-      inner_cfg = None
+      inner_cfg = bw_cfg = None
       if ld["cls"] == "Bidirectional":
         inner_cfg = sl.forward_layer.get_config()
+        bw_cfg = sl.backward_layer.get_config()
       ref = REF.ref_layer(ld, p, src_cfg=sl.get_config(),
                           inner_src_cfg=inner_cfg,
-                          input_shape=sl.input_shape)
+                          input_shape=sl.input_shape, bw_src_cfg=bw_cfg)
       rcfg = norm(ref.get_config())
       qbase = {"q_cls": p["cls"], "by": p["by"]}
       # quantizer strings per role
@@ -462,22 +485,26 @@ def oracle(ctx, case, origin="hyp"):
                    "layer %s role %s: got %r, expected %r (entry by %s)" %
                    (sl.name, role, g, x, p["by"]))
       # activation roles
-      for attr in ("activation", "recurrent_activation"):
-        spec = p.get(attr) or (p.get("inner") or {}).get(attr)
-        if spec is None:
-          continue
-        if p["cls"] == "QBidirectional":
-          pairs = [("fw_" + attr, getattr(ql.forward_layer, attr, None),
-                    getattr(ref.forward_layer, attr, None)),
-                   ("bw_" + attr, getattr(ql.backward_layer, attr, None),
-                    getattr(ref.backward_layer, attr, None))]
-        else:
-          pairs = [(attr, getattr(ql, attr, None), getattr(ref, attr, None))]
-        for role, g, x in pairs:
-          if act_id(g) != act_id(x):
-            fail("activation", dict(qbase, role=role, source=spec[0]),
-                 "layer %s %s: got %s, expected %s (%s %r, activation_bits=%d)"
-                 % (sl.name, role, act_id(g), act_id(x), spec[0], spec[1], bits))
+      if p["cls"] == "QBidirectional":
+        pairs = []
+        for pre, pd, qsub, rsub in (
+            ("fw_", p["inner"], ql.forward_layer, ref.forward_layer),
+            ("bw_", p.get("inner_bw", p["inner"]), ql.backward_layer,
+             ref.backward_layer)):
+          for attr in ("activation", "recurrent_activation"):
+            if pd.get(attr) is not None:
+              pairs.append((pre + attr, pd[attr], getattr(qsub, attr, None),
+                            getattr(rsub, attr, None)))
+      else:
+        pairs = [(attr, p[attr], getattr(ql, attr, None),
+                  getattr(ref, attr, None))
+                 for attr in ("activation", "recurrent_activation")
+                 if p.get(attr) is not None]
+      for role, spec, g, x in pairs:
+        if act_id(g) != act_id(x):
+          fail("activation", dict(qbase, role=role, source=spec[0]),
+               "layer %s %s: got %s, expected %s (%s %r, activation_bits=%d)"
+               % (sl.name, role, act_id(g), act_id(x), spec[0], spec[1], bits))
       # configs: hyper-parameters against the source layer, quantization-
       # related keys against the reference layer
       dropped = ()
@@ -497,12 +524,11 @@ def oracle(ctx, case, origin="hyp"):
             continue
           sc_ = dict((a or {}).get("config", {}))
           qc_, rc_ = dict(b.get("config", {})), dict(c.get("config", {}))
-          if k == "backward_layer":
+          if k == "backward_layer" and not sc_:
             rc_["name"] = qc_.get("name")   # auto-named by the wrapper
-            if not sc_:
-              sc_ = dict(scfg["layer"].get("config", {}))
-              sc_.pop("name", None)
-              sc_.pop("go_backwards", None)
+            sc_ = dict(scfg["layer"].get("config", {}))
+            sc_.pop("name", None)
+            sc_.pop("go_backwards", None)
           _compare_cfg(fail, hbase, sl.name, k + ".", sc_, qc_, rc_, ())
       _check_weights(fail, sl, ql, src_weights, transfer, base)
 
@@ -598,6 +624,20 @@ def _templates():
                                        "kw": {"units": 1,
                                               "unit_forget_bias": False}}},
       "Dense")
+  bwk = {"units": 2, "go_backwards": True}
+  add(seq, "Bidirectional", {
+      "layer": {"name": "inner", "cls": "LSTM", "kw": {"units": 2}},
+      "backward_layer": {"name": "inner_back", "cls": "LSTM", "kw": dict(
+          bwk, activation="sigmoid", use_bias=False)}}, "Dense")
+  add(seq, "Bidirectional", {
+      "layer": {"name": "inner", "cls": "SimpleRNN", "kw": {"units": 2}},
+      "backward_layer": {"name": "inner_back", "cls": "GRU", "kw": dict(
+          bwk, reset_after=False)}}, "Dense")
+  for an in ("hard_sigmoid", "leaky_relu", "relu6", "softsign"):
+    add(vec, "Dense", {"units": 3, "activation": an}, "Dense")
+  add(img, "Conv2D", dict(conv, activation="hard_sigmoid"), "Flatten")
+  add(seq, "SimpleRNN", {"units": 2, "activation": "hard_sigmoid"}, "Dense")
+  add(seq, "LSTM", {"units": 2, "activation": "leaky_relu"}, "Dense")
   add(vec, "Dense", {"units": 3, "activation": "relu"}, "Dense")
   add(vec, "Dense", {"units": 3, "activation": "softmax"}, "Dense")
   return t
@@ -682,8 +722,9 @@ def lattice(quick=False):
         "Conv2D", "DepthwiseConv2D", "SeparableConv2D", "Conv1D",
         "SeparableConv1D", "SimpleRNN", "LSTM", "GRU", "Dense",
         "Bidirectional") else [None]
-    if "unit_forget_bias" in json.dumps(kw) or (
-        cls == "Bidirectional" and kw["layer"]["cls"] == "GRU"):
+    if "unit_forget_bias" in json.dumps(kw) or "backward_layer" in kw or (
+        cls == "Bidirectional" and kw["layer"]["cls"] == "GRU") or (
+            kw.get("activation") in KM.OTHER_ACTS):
       biases = [True]             # extra recurrent templates: no bias variants
     for ub in biases:
       kw2 = copy.deepcopy(kw)
@@ -713,6 +754,9 @@ def lattice(quick=False):
             if variant or (quick and (cls in _RNN or mode in (
                 "class_empty", "both_empty"))):
               continue
+          if quick and mode != "class" and (
+              kw.get("activation") in KM.OTHER_ACTS):
+            continue          # look-alike activation templates: auto path only
           if mode == "primary_only" and (variant or cls not in _RNN):
             continue
           if quick and cls in _RNN and (
@@ -738,7 +782,24 @@ def lattice(quick=False):
                 "transfer": False, "prefer_adaptive": mode == "name",
                 "custom_objects": "none"}))
   cases.sort(key=lambda pc: pc[0])      # stable
-  return [c for _, c in cases]
+  cases = [c for _, c in cases]
+  # front-load a greedy cover of the required labels, so that a starved run
+  # (slow machine) still reaches every class that matters
+  need = set(REQUIRED_LABELS["quick" if quick else "thorough"])
+  labs = []
+  for c in cases:
+    pl = REF.plan(c["model"], c["qdict"], c["activation_bits"],
+                  c["prefer_adaptive"])
+    labs.append(set(case_labels(c, pl, "lattice")[0]) & need)
+  front, left = [], list(range(len(cases)))
+  while need:
+    best = max(left, key=lambda j: (len(labs[j] & need), -j))
+    if not labs[best] & need:
+      break
+    need -= labs[best]
+    front.append(best)
+    left.remove(best)
+  return [cases[j] for j in front + left]
 
 
 def _lattice_dict(ld, mode, adaptive=False):
